@@ -16,7 +16,7 @@ def main(tier):
         'C18_NBASES': '12' if quick else '24',
         'C18_WINDOW_MIB': '64' if quick else '256',
         'C18_WITNESS_CAP': '50' if quick else '1000000',
-        'C18_DENSE': '1024' if quick else '4096',
+        'C18_DENSE': '1024' if quick else '2048',
     }
     c.build('asan', ['c18'])
     c.build('plain', ['c18'])
@@ -55,7 +55,7 @@ def main(tier):
                             '+ address pairs judged on the binding grids; transitions = queries executed on the real code; traces = query orders / witness scenarios executed on the real code',
     }
     return c.finish(
-        rule='graph: every (n <= %s variables, 2-3 components, flat/chain hierarchy, every assignment of variables to components, every edge set) is one case by construction; every case is asked '
+        rule='graph: every (n <= %s variables, 2-3 components, flat/chain hierarchy (n = 5: flat only), every assignment of variables to components, every edge set) is one case by construction; every case is asked '
              'all ordered pairs incl. (v,v), 3x each, in lexicographic order (fresh analysis), reverse order (second fresh analysis) and with each pair first (post-analysis cache restored); '
              'perm: n <= 3, every permutation of the n*n ordered pairs; window: all 2S/16 sums of 16-byte-aligned addresses of an S = %s MiB window are enumerated, T(s) sorted, every pair of sums '
              'with |dT| < S expanded - this yields ALL key collisions inside the window; the lowest and highest expansion with non-overlapping 32-byte objects is replayed on real Variables placed at those '
